@@ -5,6 +5,9 @@ For every ACL text of the grammar (mc/aclgen.py, inside the unambiguous domain o
 negated rows):  apply_acl(t,A) == ref_filter(t,A), order-preserving subtree, idempotent, fatal mode raises AclError
 naming the first uncovered row iff the reference finds one, filter_config agrees; and for pairs (A,B):
 apply_acl(t,A) U apply_acl(t,B) is a subtree of apply_acl(t, A+B) with A+B compiled from the name-tagged concatenation.
+Two-step histories (kind "seq"): for the ACLs in which several rules match one row, every ordered pair of forests
+(f1 <= 2 nodes [thorough: 3], f2 <= 3 nodes) is filtered with ONE freshly compiled ACL object, f1 first; the result for
+f2 must still be the reference's (filtering must not write into the compiled rules).
 """
 from __future__ import annotations
 
@@ -46,6 +49,12 @@ def blocks(tier, seed):
         out.append({"kind": "pairs", "i": i, "with": core})
     for i in range(len(aclgen.merge_pairs())):
         out.append({"kind": "mpair", "i": i})
+    # two-step histories on one compiled ACL object, for the ACLs in which several rules match one row (their children
+    # are merged per match: the merge must not leak into the compiled rules)
+    for i, (name, _) in enumerate(A):
+        if name.startswith("overlap"):
+            for sl in range(4):
+                out.append({"kind": "seq", "i": i, "slice": sl, "of": 4})
     # overlap families against every single-rule %global ACL (a specific global rule may out-rank a local catch-all)
     ov = [i for i, (name, _) in enumerate(A) if name.startswith("overlap")]
     gl = [i for i, (name, fac) in enumerate(A) if name.startswith("L1-") and len(fac()) == 1 and fac()[0].glob]
@@ -140,6 +149,52 @@ def run_single(block, ctx):
         ctx.notes.append("filter_config not importable")
     if len(ctx.samples) < 1:
         ctx.sample({"acl": text, "rows": rows, "negated_family": block["neg"]})
+
+
+def judge_seq(rules, text, level, history, forest, report):
+    """a fresh compiled ACL (cache cleared), the forests of `history` filtered first, then `forest` judged"""
+    from annet.annlib import patching
+    from annet.annlib.rbparser.acl import compile_acl_text
+    compile_acl_text.cache_clear()
+    compiled = compile_acl_text(text, VENDOR)
+    for h in history:
+        try:
+            patching.apply_acl(env.to_odict(h), compiled)
+        except Exception:  # noqa  (judged where h is the forest)
+            pass
+    exp = refacl.ref_filter(level, forest, PREFIX)
+    case = {"kind": "seq", "acl": [r.to_json() for r in rules], "history": history, "forest": forest}
+    try:
+        got = to_list(patching.apply_acl(env.to_odict(forest), compiled))
+    except Exception as e:  # noqa
+        report({"kind": "exception-after-history", "exc": type(e).__name__, "acl": text}, case, repr(e)[:300])
+        return None
+    if got != exp:
+        report({"kind": "filter-differs-after-history", "acl": text}, case,
+               "after filtering %r with the same compiled ACL: apply_acl=%r reference=%r" % (history, got, exp))
+    return got
+
+
+def run_seq(block, ctx):
+    name, fac = aclgen.acls(ctx.tier)[block["i"]]
+    rules = fac()
+    text = refacl.text(rules)
+    level = refacl.top(refacl.merge([("g", rules)]))
+    rows = aclgen.row_alphabet(rules)
+    n1 = 2 if ctx.tier == "quick" else 3
+    firsts = [f for f in mcenum.forests(rows, n1, 3) if f]
+    seconds = [f for f in mcenum.forests(rows, 3, 3) if f]
+    for f1 in firsts[block["slice"]::block["of"]]:
+        for f2 in seconds:
+            if ctx.expired():
+                return
+            got = judge_seq(rules, text, level, [f1], f2, ctx.violation)
+            ctx.evals += 1
+            ctx.states += 1
+            if got is not None and 0 < mcenum.size(got) < mcenum.size(f2):
+                ctx.nontrivial += 1
+            ctx.outcomes["seq"] += 1
+            ctx.extra["two_step_histories"] += 1
 
 
 def run_pairs(block, ctx):
@@ -263,6 +318,8 @@ def run_block(block, ctx):
         run_single(block, ctx)
     elif block["kind"] == "mpair":
         run_mpair(block, ctx)
+    elif block["kind"] == "seq":
+        run_seq(block, ctx)
     else:
         run_pairs(block, ctx)
 
@@ -282,6 +339,10 @@ def replay(case):
         exp = refacl.ref_filter(refacl.top(refacl.merge([("ga", ra), ("gb", rb_)])), case["forest"], PREFIX)
         if got != exp:
             rep({"kind": "merged-filter-differs", "pair": name}, case, "apply_acl=%r reference=%r" % (got, exp))
+        return out
+    if case["kind"] == "seq":
+        rules = [refacl.ARule.from_json(d) for d in case["acl"]]
+        judge_seq(rules, refacl.text(rules), refacl.top(refacl.merge([("g", rules)])), case["history"], case["forest"], rep)
         return out
     if case["kind"] == "single":
         rules = [refacl.ARule.from_json(d) for d in case["acl"]]
